@@ -368,10 +368,144 @@ def run_history(case, res):
 
 # ------------------------------------------------------------------------------
 #
+# ------------------------------------------------------------------------------
+# (b) notifications racing the end of the tasks' pilot
+#
+# Task notifications are handled on the state subscriber thread, the end of a
+# pilot (which fails the pilot's non-final tasks) on the pilot manager's thread.
+# Both touch the same tasks.  Whatever the order, what the application is told
+# through callbacks and what Task.state says have to agree, every task ends in
+# one final state and nothing is raised.  A short sleep at the entry of
+# Task._update (an existing call boundary) lets the two threads interleave.
+#
+def gen_concurrent(rng):
+    n = rng.randint(1, 5)
+    return {'kind': 'concurrent', 'seed': rng.randint(0, 2 ** 30),
+            'n_tasks': n,
+            'start': rng.choice([rps.AGENT_EXECUTING_PENDING,
+                                 rps.AGENT_EXECUTING,
+                                 rps.AGENT_STAGING_OUTPUT_PENDING,
+                                 rps.TMGR_STAGING_OUTPUT_PENDING]),
+            'finals': [rng.choice([rps.DONE, rps.DONE, rps.FAILED,
+                                   rps.CANCELED]) for _ in range(n)],
+            'pilot_final': rng.choice([rps.FAILED, rps.DONE, rps.CANCELED]),
+            'delay': rng.choice([0, 0, 0.0005, 0.001, 0.003, 0.006])}
+
+
+def run_concurrent(case, res):
+    import time
+    import random
+    import threading as mt
+    import radical.pilot.task as m_task
+    from ..harness import make_pmgr, make_pilot
+
+    rng = random.Random(case['seed'])
+    pm  = make_pmgr()
+    tm  = make_tmgr()
+    p   = make_pilot(pm, 'pilot.0000')
+    tm.add_pilots(p)
+    uids  = ['t.%d' % i for i in range(case['n_tasks'])]
+    tasks = {u: make_task(tm, u) for u in uids}
+    for u in uids:
+        tm._update_tasks([{'uid': u, 'type': 'task', 'state': case['start'],
+                           'pilot': 'pilot.0000'}])
+        if tasks[u].state != case['start']:
+            res.inconc('concurrent: could not drive %s to %s'
+                       % (u, case['start']))
+            return
+
+    seen, lock = list(), mt.Lock()
+    def cb(task, state):
+        with lock:
+            seen.append((task.uid, state))
+    tm.register_callback(cb)
+
+    orig   = m_task.Task._update
+    sleeps = [0, 0, 0.0002, 0.0005, 0.001]
+    def slow(self, d, reconnect=False):
+        time.sleep(rng.choice(sleeps))
+        return orig(self, d, reconnect)
+    errs = list()
+
+    def notify():
+        try:
+            tm._state_sub_cb(rpc.STATE_PUBSUB, {'cmd': 'update', 'arg': [
+                {'uid': u, 'type': 'task', 'state': f, 'target_state': f,
+                 'exit_code': 0 if f == rps.DONE else 1,
+                 'exception': None if f == rps.DONE else 'E(%s)' % u}
+                for u, f in zip(uids, case['finals'])]})
+        except Exception as e:
+            errs.append('task notification: %r' % e)
+
+    def die():
+        time.sleep(case['delay'])
+        try:
+            pm._state_sub_cb(rpc.STATE_PUBSUB, {'cmd': 'update', 'arg': [
+                {'uid': 'pilot.0000', 'type': 'pilot',
+                 'state': case['pilot_final']}]})
+        except Exception as e:
+            errs.append('pilot notification: %r' % e)
+
+    m_task.Task._update = slow
+    try:
+        a = mt.Thread(target=notify, name='state-sub')
+        b = mt.Thread(target=die,    name='pilot-cb')
+        a.start(); b.start()
+        a.join(timeout=30); b.join(timeout=30)
+    finally:
+        m_task.Task._update = orig
+
+    res.count('concurrent_histories')
+    ctx = {'case': case, 'callbacks': list(seen), 'errors': errs,
+           'states': {u: t.state for u, t in tasks.items()}}
+    if a.is_alive() or b.is_alive():
+        res.violation('concurrent/deadlock', 'the notification threads did '
+                      'not finish', ctx)
+        return
+    for e in errs:
+        res.violation('concurrent/raised', e, ctx)
+        return
+    for u, f in zip(uids, case['finals']):
+        st  = tasks[u].state
+        cbs = [s for x, s in seen if x == u]
+        res.count('concurrent_tasks_checked')
+        if st not in FINAL_STATES:
+            res.violation('concurrent/not-final', '%s is %s after its final '
+                          'notification (%s) and the end of its pilot'
+                          % (u, st, f), ctx)
+            return
+        told = [s for s in cbs if s in FINAL_STATES]
+        if told and told[-1] != st and not (told[-1] == rps.CANCELED and
+                                            st == rps.DONE):
+            res.violation('concurrent/callback-state-disagree',
+                          '%s: the application was told %s by callback, '
+                          'Task.state is %s (exception %r)'
+                          % (u, told[-1], st, tasks[u].exception), ctx)
+            return
+        if len(set(told)) > 1 and not (told[0] == rps.CANCELED and
+                                       set(told) == {rps.CANCELED, rps.DONE}):
+            res.violation('concurrent/two-final-callbacks', '%s: %s'
+                          % (u, told), ctx)
+            return
+        vals = [_V[s] for s in cbs]
+        if vals != sorted(vals):
+            res.violation('concurrent/callback-regress', '%s: %s' % (u, cbs),
+                          ctx)
+            return
+
+
 def run(ctx):
 
     res = Result()
     _install_contract(res)
+
+    rng = ctx.rng('conc')
+    for i in range(ctx.n(1200, 40000)):
+        case = gen_concurrent(rng)
+        run_concurrent(case, res)
+        if len(res.violations) > 30:
+            break
+
     rng = ctx.rng('hist')
 
     for i in range(ctx.n(40000, 1500000)):
@@ -390,6 +524,13 @@ def run(ctx):
 def replay(case, ctx):
     res = Result()
     _install_contract(res)
+    if case['case'].get('kind') == 'concurrent':
+        for _ in range(20):
+            run_concurrent(case['case'], res)
+            if res.violations:
+                break
+        res.evaluations = 1
+        return res
     run_history(case['case'], res)
     res.evaluations = 1
     return res
